@@ -1,4 +1,171 @@
+import IpcHub.Drv.Util
+import IpcHub.Model.FlvInst
+import IpcHub.Spec.FlvParse
+/-
+Line protocol of property C08 (one output line per input line):
+
+  mux  <key=value>… f:<mediaType>:<dts ns>:<pts ns>:<payload hex>…
+       keys: cfg=gen|pinned|fixed codec=h264|h265|other w h fr vdr sps pps vps hv hs aac asr ass ach adr asc
+             date known impl
+       → `model=<same|hex|err> dead=<0|1> app=<0|1> spec=<ok|fail> mspec=<ok|fail>` (same: equal to impl=)
+       (model: all bytes of NewWriter+NewMuxer fed with the frames; spec: Spec.checkMux on impl=…;
+        app: the hypotheses of c08_end_to_end hold for this input)
+  wr   cfg=… flags=<n> impl=<hex> t:<tagType>:<time ms>:<data hex>…
+       → `model=<hex|err> app=<0|1> spec=<ok|fail> mspec=<ok|fail>`
+-/
 namespace IpcHub.Drv.C08
-/-- placeholder: no model built for this property yet -/
-def handle (_ : List String) : String := "bad-op"
+open IpcHub.Drv IpcHub.Flv IpcHub.FlvSpec
+
+def hexVal (b : UInt8) : Option Nat :=
+  if 48 ≤ b ∧ b ≤ 57 then some (b.toNat - 48)
+  else if 97 ≤ b ∧ b ≤ 102 then some (b.toNat - 87)
+  else if 65 ≤ b ∧ b ≤ 70 then some (b.toNat - 55)
+  else none
+
+/-- bytes `2*i-2, 2*i-1` … of the hex text, built back to front (no reversal) -/
+def unhexLoop (a : ByteArray) : Nat → Bytes → Option Bytes
+  | 0, acc => some acc
+  | i + 1, acc =>
+    match hexVal (a.get! (2 * i)), hexVal (a.get! (2 * i + 1)) with
+    | some x, some y => unhexLoop a i (UInt8.ofNat (x * 16 + y) :: acc)
+    | _, _ => none
+
+/-- "-" is the empty string (same convention as Util.hexToBytes, faster on long inputs) -/
+def unhex (s : String) : Option Bytes :=
+  if s = "-" then some [] else
+  let a := s.toUTF8
+  if a.size % 2 ≠ 0 then none else unhexLoop a (a.size / 2) []
+
+def kvOf (ts : List String) : List (String × String) :=
+  ts.filterMap fun t =>
+    match t.splitOn "=" with
+    | [k, v] => some (k, v)
+    | _ => none
+
+def get (kv : List (String × String)) (k : String) : Option String :=
+  (kv.find? (·.1 == k)).map (·.2)
+
+def getBytes (kv : List (String × String)) (k : String) : Option Bytes :=
+  (get kv k).bind unhex
+
+def getInt (kv : List (String × String)) (k : String) : Option Int :=
+  (get kv k).bind String.toInt?
+
+def hexNat (s : String) : Option Nat :=
+  s.toList.foldl (fun acc c => match acc, hexDigit c with
+    | some a, some d => some (a * 16 + d)
+    | _, _ => none) (some 0)
+
+def getHexNat (kv : List (String × String)) (k : String) : Option Nat :=
+  (get kv k).bind hexNat
+
+def cfgOf (kv : List (String × String)) : Cfg :=
+  match get kv "cfg" with
+  | some "pinned" => pinnedCfg
+  | some "fixed" => fixedCfg
+  | _ => genCfg
+
+def natsOf (s : String) : Option (List Nat) :=
+  (s.splitOn ",").mapM String.toNat?
+
+def parsePtl : List Nat → Option HevcPtl
+  | [sp, ti, idc, co, cn, lv] =>
+    some { space := UInt8.ofNat sp, tier := UInt8.ofNat ti, idc := UInt8.ofNat idc,
+           compat := UInt32.ofNat co, constraint := UInt64.ofNat cn, level := UInt8.ofNat lv }
+  | _ => none
+
+def parseHv (s : String) : Option (Option HevcVpsInfo) :=
+  if s = "-" then some none else
+  match natsOf s with
+  | some (m :: rest) => (parsePtl rest).map fun p => some { maxSubLayersMinus1 := UInt8.ofNat m, ptl := p }
+  | _ => none
+
+def parseHs (s : String) : Option (Option HevcSpsInfo) :=
+  if s = "-" then some none else
+  match natsOf s with
+  | some [m, n, sp, ti, idc, co, cn, lv, ch, lu, cb] =>
+    (parsePtl [sp, ti, idc, co, cn, lv]).map fun p =>
+      some { maxSubLayersMinus1 := UInt8.ofNat m, nesting := UInt8.ofNat n, ptl := p,
+             chroma := UInt8.ofNat ch, lumaM8 := UInt8.ofNat lu, chromaM8 := UInt8.ofNat cb }
+  | _ => none
+
+def parseFrame (t : String) : Option Frame :=
+  match t.splitOn ":" with
+  | ["f", mt, d, p, h] =>
+    match mt.toInt?, d.toInt?, p.toInt?, unhex h with
+    | some mt, some d, some p, some h => some { mediaType := mt, dts := d, pts := p, payload := h }
+    | _, _, _, _ => none
+  | _ => none
+
+def parseSrcTag (t : String) : Option (Tag × SrcTag) :=
+  match t.splitOn ":" with
+  | ["t", ty, tm, h] =>
+    match ty.toNat?, tm.toInt?, unhex h with
+    | some ty, some tm, some h =>
+      some ({ tagType := UInt8.ofNat ty, timestamp := u32OfInt tm, data := h },
+            { tagType := ty, time := tm, data := h })
+    | _, _, _ => none
+  | _ => none
+
+def okStr (b : Bool) : String := if b then "ok" else "fail"
+
+/-- the hypotheses of `c08_end_to_end` on the carried frames -/
+def frameOk (f : Frame) : Bool :=
+  (f.mediaType = 0 → f.payload ≠ []) && f.payload.length + 9 < 16777216 &&
+  decide (0 ≤ tagTimeMs f ∧ tagTimeMs f < 2147483648) &&
+  decide (-8388608 ≤ msOf f.pts - msOf f.dts ∧ msOf f.pts - msOf f.dts < 8388608)
+
+def handleMux (ts : List String) : String :=
+  let kv := kvOf ts
+  let frames? := (ts.filter (·.startsWith "f:")).mapM parseFrame
+  let codec : VCodec := match get kv "codec" with
+    | some "h264" => .h264 | some "h265" => .h265 | _ => .other
+  match frames?, getInt kv "w", getInt kv "h", getHexNat kv "fr", getHexNat kv "vdr",
+        getBytes kv "sps", getBytes kv "pps", getBytes kv "vps" with
+  | some frames, some w, some h, some fr, some vdr, some sps, some pps, some vps =>
+    match (get kv "hv").bind parseHv, (get kv "hs").bind parseHs, getInt kv "asr", getInt kv "ass",
+          getInt kv "ach", getHexNat kv "adr", getBytes kv "asc", getBytes kv "date",
+          (get kv "known").bind String.toNat?, getBytes kv "impl" with
+    | some hv, some hs, some asr, some ass, some ach, some adr, some asc, some date, some known, some impl =>
+      let vm : VideoMeta := { codec := codec, width := w, height := h, frameRate := fr, dataRate := vdr,
+                              sps := sps, pps := pps, vps := vps, hevcVps := hv, hevcSps := hs }
+      let am : AudioMeta := { aac := get kv "aac" == some "1", sampleRate := asr, sampleSize := ass,
+                              channels := ach, dataRate := adr, asc := asc }
+      let src : Src := { codec := codec, aac := am.aac, sps := sps, pps := pps, vps := vps, asc := asc }
+      let want := fromStart src known frames
+      let app := codec ≠ .other && (want.filter (carried src)).all frameOk &&
+                 (want = [] || (videoMetaReady vm && sps.length < 65536 && pps.length < 65536 && vps.length < 65536
+                    && asc.length + 2 < 16777216 && date.length < 65536))
+      match muxBytes (cfgOf kv) vm am date known frames with
+      | none => s!"model=err dead=0 app={boolStr app} spec={okStr (checkMux src want impl)} mspec=fail"
+      | some (bs, dead) =>
+        let sp := checkMux src want impl
+        if bs = impl then s!"model=same dead={boolStr dead} app={boolStr app} spec={okStr sp} mspec={okStr sp}"
+        else s!"model={bytesToHex bs} dead={boolStr dead} app={boolStr app} spec={okStr sp} mspec={okStr (checkMux src want bs)}"
+    | _, _, _, _, _, _, _, _, _, _ => "bad-op"
+  | _, _, _, _, _, _, _, _ => "bad-op"
+
+def handleWr (ts : List String) : String :=
+  let kv := kvOf ts
+  match (ts.filter (·.startsWith "t:")).mapM parseSrcTag, (get kv "flags").bind String.toNat?, getBytes kv "impl" with
+  | some tags, some flags, some impl =>
+    let src := tags.map (·.2)
+    let fl := UInt8.ofNat flags
+    let app := (match src with
+      | [] => true
+      | s0 :: _ => src.all fun s => decide (-2147483648 ≤ s.time - s0.time ∧ s.time - s0.time < 2147483648) &&
+                                    s.data.length < 16777216 && s.tagType < 32) && fl &&& 5 ≠ 0
+    match clientBytes (cfgOf kv) fl (tags.map (·.1)) with
+    | none => s!"model=err app={boolStr app} spec={okStr (checkClient fl src impl)} mspec=fail"
+    | some bs =>
+      let sp := checkClient fl src impl
+      if bs = impl then s!"model=same app={boolStr app} spec={okStr sp} mspec={okStr sp}"
+      else s!"model={bytesToHex bs} app={boolStr app} spec={okStr sp} mspec={okStr (checkClient fl src bs)}"
+  | _, _, _ => "bad-op"
+
+def handle : List String → String
+  | "mux" :: ts => handleMux ts
+  | "wr" :: ts => handleWr ts
+  | _ => "bad-op"
+
 end IpcHub.Drv.C08
